@@ -20,7 +20,7 @@ RULE = ('molecules of 1..12 fragments on a random reference: random overlaps bet
 ASSUMPTIONS = ['fragments are forced into one molecule through the internal add so the equality rules do not filter the input',
                'each fragment with a read 1 contributes one call per position: the higher-quality mate; equal quality with different bases, or N: no vote']
 MIN_NONTRIVIAL = {'quick': 300, 'thorough': 30000}
-REQUIRED_MONITORS = ['ret:get_consensus', 'ret:get_consensus_dove_safe', 'oracle:positions_compared', 'oracle:tied_positions', 'meta:permutations', 'meta:duplications', 'history:repeated_requests', 'history:grown_molecule', 'lib:deep_molecules', 'ret:get_consensus_with_probs_and_obs', 'ret:get_consensus_base', 'lib:gapped_reads', 'ret:get_consensus_dove_safe_with_distances']
+REQUIRED_MONITORS = ['lib:window_ends_at_contig_start', 'ret:get_consensus', 'ret:get_consensus_dove_safe', 'oracle:positions_compared', 'oracle:tied_positions', 'meta:permutations', 'meta:duplications', 'history:repeated_requests', 'history:grown_molecule', 'lib:deep_molecules', 'ret:get_consensus_with_probs_and_obs', 'ret:get_consensus_base', 'lib:gapped_reads', 'ret:get_consensus_dove_safe_with_distances']
 SHARD_TIMEOUT = {'quick': 900, 'thorough': 5400}
 REF_LEN = 400
 
@@ -101,7 +101,7 @@ def gap_read(r, ref, a, seq):
     return ''.join(f'{ln}{op}' for op, ln in ops), ''.join(out), ''.join(md), nm
 
 
-def make_frag_spec(r, ref, fid, hot, stacked=False):
+def make_frag_spec(r, ref, fid, hot, stacked=False, origin=None):
     """returns dict(reads=[rec or None, rec or None]) ; hot = positions where disagreement is concentrated;
     stacked: all fragments of the molecule share one geometry, so every position is covered by every fragment"""
     L = len(ref)
@@ -131,6 +131,18 @@ def make_frag_spec(r, ref, fid, hot, stacked=False):
         if kind == 'dove':
             r2e = r1e + r.randint(1, 8)
             r2s = r2e - l2
+    if origin is not None:
+        # a fragment at the very start of the contig whose mate-overlap-safe window ends at (or next to) coordinate 0: the window is
+        # empty or holds position 0 only, whatever the mates cover beyond it
+        d1, d2 = origin
+        kind = 'pair'
+        wobble = r.choice([0, 0, 0, 1, -1, 2])
+        if not reverse:
+            r1s, r1e = 0, l1
+            r2s, r2e = 0, max(1, d2 + 1 + wobble)
+        else:
+            r1s, r1e = 0, max(1, d1 + 1 + wobble)
+            r2s, r2e = 0, l2
     r1s, r2s = max(0, r1s), max(0, r2s)
     qmode = r.choice(['flat_equal', 'random', 'r1_better', 'r2_better'])
     flat_q = r.choice([30, 30, 30, 0])
@@ -275,6 +287,12 @@ def run_case(case):
         acc.count('lib:deep_molecules')
     hot = [r.randint(30, 200) for _ in range(r.randint(0, 6))]
     frags = [make_frag_spec(r, ref, i, hot, stacked=n > 100) for i in range(n)]
+    dd = (r.choice([0, 3, 8]), r.choice([0, 6, 12])) if case['i'] % 3 == 1 else (0, 0)
+    if case['i'] % 5 == 3 and n <= 100:
+        ro = rng(case['seed'], 'C13', 'origin', case['i'])
+        for i in range(0, n, 2):
+            frags[i] = make_frag_spec(ro, ref, i, [ro.randint(0, 12) for _ in range(3)], origin=dd)
+        acc.count('lib:window_ends_at_contig_start')
     # make overlaps likely: shift every fragment near a common anchor
     def build(order, dup=False):
         m = Molecule()
@@ -292,7 +310,7 @@ def run_case(case):
 
     # the mate-overlap-safe window can be narrowed by a distance per mate (dove_R1_distance / dove_R2_distance); a third of the molecules are
     # requested with two different distances
-    DOVE_DIST[0] = (r.choice([0, 3, 8]), r.choice([0, 6, 12])) if case['i'] % 3 == 1 else (0, 0)
+    DOVE_DIST[0] = dd
 
     def observe(m, dove):
         kw = {}
